@@ -4,7 +4,7 @@
 //! found in `serde_json::to_value(&sim)`.
 //!
 //! Case descriptor (emitted by History.tla or by `gen`):
-//!   {"comp":["conv","bel",..], "sched":[["New",v0],["Set",v],["Init",0],["Step",0],["Err",0],
+//!   {"comp":["conv","bel",..], "sched":[["New",v0,u0,c0],["Relist",v],["Set",v],["Init",0],["Step",0],["Err",0],
 //!                                        ["Walk",n],["WalkErr",k]], "kinds":[..]?}
 //! intervals: 0 = None. "Walk" n = walk() over n further steps (trace kinds) / to the end of the
 //! path (slts, timed); "WalkErr" k = walk() whose k-th step fails (trace kinds only).
@@ -45,15 +45,24 @@ fn unit(kind: &str) -> Value {
 
 /// conventional / battery-electric toy-builder units at realistic scale, or altrios' own default
 /// hybrid (fuel converter + generator + battery + drivetrain from the shipped default YAMLs)
-fn make_unit(kind: &str) -> anyhow::Result<Locomotive> {
-    if kind == "hyb" {
+fn make_unit(kind: &str, u0: Option<usize>) -> anyhow::Result<Locomotive> {
+    let mut l = if kind == "hyb" {
         let mut l = Locomotive::default_hybrid_electric_loco();
-        l.set_save_interval(None);
         l.init()?;
-        Ok(l)
+        l
     } else {
-        build::loco(&unit(kind))
-    }
+        build::loco(&unit(kind))?
+    };
+    // the unit's own interval, set before it is handed to any consist / simulation
+    l.set_save_interval(u0);
+    Ok(l)
+}
+
+/// the library's own constructor (not the serde route of `build::consist_of`): the struct literal
+/// stores `c0`, then `set_save_interval(c0)` carries it to the units
+fn make_consist(units: Vec<Locomotive>, c0: Option<usize>) -> Consist {
+    use altrios_core::consist::{PowerDistributionControlType, Proportional};
+    Consist::new(units, c0, PowerDistributionControlType::Proportional(Proportional))
 }
 
 fn opt(v: i64) -> Option<usize> {
@@ -104,9 +113,9 @@ fn speed_trace(n: usize) -> SpeedTrace {
 }
 
 impl Sim {
-    fn new(kind: &str, comp: &[Value], v0: Option<usize>) -> anyhow::Result<Sim> {
+    fn new(kind: &str, comp: &[Value], v0: Option<usize>, u0: Option<usize>, c0: Option<usize>) -> anyhow::Result<Sim> {
         let units = || -> anyhow::Result<Vec<Locomotive>> {
-            comp.iter().map(|c| make_unit(c.as_str().unwrap_or("conv"))).collect()
+            comp.iter().map(|c| make_unit(c.as_str().unwrap_or("conv"), u0)).collect()
         };
         Ok(match kind {
             "loco" => Sim::Loco(Box::new(LocomotiveSimulation::new(
@@ -115,7 +124,7 @@ impl Sim {
                 v0,
             ))),
             "consist" => Sim::Con(Box::new(ConsistSimulation::new(
-                build::consist_of(units()?, "Proportional", None)?,
+                make_consist(units()?, c0),
                 power_trace(STEPS_MAX),
                 v0,
             ))),
@@ -124,7 +133,7 @@ impl Sim {
                 let tsb = TrainSimBuilder::new(
                     "t".into(),
                     train_cfg()?,
-                    build::consist_of(units()?, "Proportional", None)?,
+                    make_consist(units()?, c0),
                     None,
                     None,
                     None,
@@ -142,7 +151,7 @@ impl Sim {
                 let tsb = TrainSimBuilder::new(
                     "t".into(),
                     train_cfg()?,
-                    build::consist_of(units()?, "Proportional", None)?,
+                    make_consist(units()?, c0),
                     Some("A".into()),
                     Some("B".into()),
                     None,
@@ -175,6 +184,23 @@ impl Sim {
             Sim::Ss(s) => s.set_save_interval(v),
             Sim::Sl { sim, .. } => sim.set_save_interval(v),
         }
+    }
+
+    /// fresh units (carrying their own interval `u0`) replace the current ones, then the interval
+    /// `v` is applied at the top of the tree - even when `v` is the interval already in force
+    fn relist(&mut self, comp: &[Value], u0: Option<usize>, v: Option<usize>) -> anyhow::Result<()> {
+        let mut units: Vec<Locomotive> = comp
+            .iter()
+            .map(|c| make_unit(c.as_str().unwrap_or("conv"), u0))
+            .collect::<anyhow::Result<_>>()?;
+        match self {
+            Sim::Loco(s) => s.loco_unit = units.remove(0),
+            Sim::Con(s) => s.loco_con.set_loco_vec(units),
+            Sim::Ss(s) => s.loco_con.set_loco_vec(units),
+            Sim::Sl { sim, .. } => sim.loco_con.set_loco_vec(units),
+        }
+        self.set(v);
+        Ok(())
     }
 
     fn extend(&mut self) -> anyhow::Result<()> {
@@ -428,13 +454,12 @@ fn nodes(sim: &Sim) -> Value {
 // ---------------------------------------------------------------------------------------------
 
 fn run_kind(kind: &str, comp: &[Value], sched: &[Value], tr: &mut Tracer) -> anyhow::Result<()> {
-    let v0 = sched
-        .first()
-        .filter(|a| a[0] == "New")
-        .map(|a| a[1].as_i64().unwrap_or(0))
-        .unwrap_or(0);
-    let mut sim = Sim::new(kind, comp, opt(v0))?;
-    tr.emit(json!({"ev":"Start","kind":kind,"comp":comp,"v0":v0,"simi":sim.simi(),"nodes":nodes(&sim)}));
+    let new = sched.first().filter(|a| a[0] == "New");
+    let arg_of = |k: usize| new.map(|a| a[k].as_i64().unwrap_or(0)).unwrap_or(0);
+    // ["New", v0, u0, c0]: simulation's interval, the units' own, the one given to Consist::new
+    let (v0, u0, c0) = (arg_of(1), arg_of(2), arg_of(3));
+    let mut sim = Sim::new(kind, comp, opt(v0), opt(u0), opt(c0))?;
+    tr.emit(json!({"ev":"Start","kind":kind,"comp":comp,"v0":v0,"u0":u0,"c0":c0,"simi":sim.simi(),"nodes":nodes(&sim)}));
     for a in sched.iter().skip(1) {
         let name = a[0].as_str().unwrap_or("");
         let arg = a[1].as_i64().unwrap_or(0);
@@ -442,6 +467,10 @@ fn run_kind(kind: &str, comp: &[Value], sched: &[Value], tr: &mut Tracer) -> any
         let (ok, msg): (bool, String) = match name {
             "Set" => {
                 sim.set(opt(arg));
+                (true, String::new())
+            }
+            "Relist" => {
+                sim.relist(comp, opt(u0), opt(arg))?;
                 (true, String::new())
             }
             "Init" => match sim.init_save() {
@@ -493,7 +522,15 @@ fn gen(seed: u64, n: usize, _tier: &str) -> Vec<Value> {
         let nl = r.range(1, 3);
         let comp: Vec<&str> = (0..nl).map(|_| *r.pick(&["conv", "bel", "hyb"])).collect();
         let ivs = [0i64, 1, 1, 2, 3, 4, 5, 7, 10];
-        let mut sched = vec![json!(["New", *r.pick(&ivs)])];
+        // units' own interval / interval given to Consist::new: mostly "nothing special" (0 = None)
+        let v0 = *r.pick(&ivs);
+        let u0 = if r.chance(1, 2) { 0 } else { *r.pick(&ivs) };
+        let c0 = if r.chance(1, 3) { v0 } else if r.chance(1, 2) { 0 } else { *r.pick(&ivs) };
+        let mut sched = vec![json!(["New", v0, u0, c0])];
+        if r.chance(1, 4) {
+            // re-listed units, then the interval re-applied (the one in force half of the time)
+            sched.push(json!(["Relist", if r.chance(1, 2) { v0 } else { *r.pick(&ivs) }]));
+        }
         for _ in 0..r.range(0, 2) {
             sched.push(json!(["Set", *r.pick(&ivs)]));
         }
